@@ -4,6 +4,7 @@ import itertools
 import numpy as np
 
 from . import common as C
+from translate import partition as TP
 
 PID = 'C14'
 SHARD_SIZE = 250
@@ -11,6 +12,10 @@ IMPORTS = ['C14.Model', 'C14.Corr']
 
 DY = [0.0, 0.25, 0.5, 1.0, 1.5, 2.0, 3.0]          # dyadic offsets
 STEPS = [0.25, 0.5, 1.0, 1.5, 2.0, 3.0]
+
+
+def translate():
+    return {'Gen/Partition.v': TP.translate()}
 
 
 # ----------------------------------------------------------------- literals
@@ -898,7 +903,8 @@ ASSUMPTIONS = ['exact arithmetic: limits/coordinates are dyadic so that float re
                'rounding of the computed shape) are modelled as exact equality; inputs stay away from the tolerance band']
 ASSUMPTIONS.append('the model is pure: observables are functions of (set, grid) only; independence from object history, '
                    'caches and caller-side writes is validated by the history cases and the aliasing probes, not proved')
-TRUSTED = ['C14/Model.v hand-written model of RectPartition, RectGrid/IntervalProd checks, normalized_index_expression, '
+TRUSTED = ['translate/partition.py (Python ast -> Gallina, fail-closed; typed expression grammar in its docstring)',
+           'C14/Model.v hand-written model of RectPartition, RectGrid/IntervalProd checks, normalized_index_expression, '
            'Python slice and NumPy integer-array indexing semantics (validated by the correspondence)']
 LEVEL_TEXT = ('Proof: for a hand-written Coq model of RectPartition / RectGrid / IntervalProd / normalized_index_expression '
               '(tied to the code by an in-Coq correspondence on ~1900 random operations per run), Coq proves for EVERY '
